@@ -26,6 +26,9 @@ func Run(o *drv.Out) {
 	CorpusLockFromOtherPhase(o, "propose")
 	CorpusLockFromOtherPhase(o, "election-vote")
 	CorpusProposalWithoutJustification(o)
+	CorpusUndersizedCertificates(o, []uint64{1, 1, 1, 1, 1}, []int{0}, []int{1, 2}, []int{3, 4})
+	CorpusUndersizedCertificates(o, []uint64{1, 1, 1, 1, 1, 1, 1, 1}, []int{0, 1}, []int{2, 3, 4}, []int{5, 6, 7})
+	CorpusUndersizedCertificates(o, []uint64{2, 3, 3}, []int{0}, []int{1}, []int{2})
 	CorpusLeaderLockDowngraded(o)
 	CorpusLeaderCertFromEarlierRoot(o)
 	CorpusCommitteeChange(o, "lock-carried-over")
@@ -124,6 +127,8 @@ func randomCase(o sink, rng *rand.Rand, tier string, search bool, k int) {
 		n = 6
 	case 3:
 		n = 7
+	case 4:
+		n = 8
 	}
 	if tier == "thorough" && rng.Intn(8) == 0 {
 		n = 8 + rng.Intn(3)
@@ -547,6 +552,40 @@ func byzPhase(r *run, rng *rand.Rand, i int, lvl chaos) {
 			s.Take(func(e *bftsim.Envelope) bool { return mine(e) && e.To != keepFor && rng.Intn(2) == 0 })
 			r.log("byz %d withholds its %s message from some replicas", i, kind)
 			r.o.Count("byz:withhold:" + kind)
+		case 2: // hand-assemble the certificate from the smallest signer set of power >= 2*(T/3)+1 (below +2/3 when T = 2 mod 3)
+			var envs []*bftsim.Envelope
+			for _, e := range s.Queue {
+				if mine(e) {
+					envs = append(envs, e)
+				}
+			}
+			if len(envs) > 0 && envs[0].Msg.Qc != nil {
+				cur := envs[0].Msg.Qc
+				var votes []*bft.Message
+				var pw uint64
+				target := 2*(s.ValSet.TotalPower/3) + 1
+				seen := map[int]bool{}
+				for _, v := range r.byzVotes[i] {
+					h := v.Qc.Header
+					from := s.IdxOf(v.Signature.PublicKey)
+					if pw >= target || seen[from] || h.RootHeight != cur.Header.RootHeight || h.Round != cur.Header.Round || h.Phase != cur.Header.Phase ||
+						string(v.Qc.BlockHash) != string(cur.BlockHash) || string(v.Qc.ResultsHash) != string(cur.ResultsHash) {
+						continue
+					}
+					seen[from] = true
+					votes = append(votes, v)
+					pw += s.Cfg.Powers[from]
+				}
+				if qc := s.ByzCertForCommittee(votes, cur.Header.RootHeight); qc != nil && pw >= target {
+					s.ByzSwapQC(i, envs, qc)
+					r.log("byz %d replaces the certificate of its %s message by one assembled from signers of power %d (threshold %d)", i, kind, pw, s.ValSet.MinimumMaj23)
+					if pw < s.ValSet.MinimumMaj23 {
+						r.o.Count("byz:minimal-certificate-below-two-thirds:" + kind)
+					} else {
+						r.o.Count("byz:minimal-certificate:" + kind)
+					}
+				}
+			}
 		case 1: // swap the certificate for another real one for the same block (older round / other phase)
 			var envs []*bftsim.Envelope
 			for _, e := range s.Queue {
